@@ -66,6 +66,7 @@ inductive UB
   | lenOverflow       -- `set_len` beyond what the length field can hold
   | badStatic         -- static id unknown (script error, not reachable from the API)
   | arith             -- `usize` overflow / underflow / division by zero in the crate's own arithmetic
+  | diverge           -- a translated `while` loop ran out of the fuel its caller supplied
   deriving DecidableEq, Repr, Inhabited
 
 /-! ## Heap -/
